@@ -72,13 +72,16 @@ func (c *Cache[k, v]) Delete(key k) error {
 	}
 	c.mu.Lock()
 	defer c.mu.Unlock()
-	if c.pruneFn != nil && c.entries[key] != nil {
-		v := c.entries[key].value
+	if e := c.entries[key]; c.pruneFn != nil && e != nil {
 		c.mu.Unlock()
-		err := c.pruneFn(key, v)
+		err := c.pruneFn(key, e.value)
 		c.mu.Lock()
 		if err != nil {
 			return err
+		}
+		if c.entries[key] != e {
+			// entry was replaced or removed while the lock was released
+			return nil
 		}
 	}
 	delete(c.entries, key)
@@ -99,12 +102,16 @@ func (c *Cache[k, v]) DeleteAll() error {
 	errs := make([]error, 0, len(c.entries))
 	for key := range c.entries {
 		if c.pruneFn != nil {
-			v := c.entries[key].value
+			e := c.entries[key]
 			c.mu.Unlock()
-			err := c.pruneFn(key, v)
+			err := c.pruneFn(key, e.value)
 			c.mu.Lock()
 			if err != nil {
 				errs = append(errs, err)
+				continue
+			}
+			if c.entries[key] != e {
+				// entry was replaced or removed while the lock was released
 				continue
 			}
 		}
